@@ -594,6 +594,21 @@ def all_valid_small(nmax, rng, kinds_full=True):
                 yield desc
 
 
+RAMP_VARIANTS = (("ramp", "in"), ("ramp", "out"), ("simple", "limited"), ("simple", "unlimited"))
+
+
+def set_interior_ramps(desc, variant):
+    """The on-ramps at nodes that have entering links become the given (kind, flow equation) variant.
+    Returns the number of ramps changed."""
+    entered = {l["down"] for l in desc["links"]}
+    k = 0
+    for o in desc["origins"]:
+        if o["node"] in entered and o["kind"] in ("ramp", "simple"):
+            o["kind"], o["eq"] = variant
+            k += 1
+    return k
+
+
 def clash_names(desc, rng):
     """Same description with element NAMES chosen so that different (element, variable) pairs
     spell the same '<variable>_<element name>': a mainstream origin and a speed-limited link with
